@@ -85,6 +85,65 @@ class ModuleInfo:
                     self.imports[a.asname or a.name] = (node.module, a.name)
 
 
+def inline_module_scalars(mi, fnames):
+    """A stand-alone script computes its constants at module level (`f = 1 / proj[1]`, `n = float(n)`, `b2 = ...`) and its
+    functions read them as globals. For translation the functions listed are rewritten, as ASTs, into closed functions:
+    every module-level assignment to a plain name (in source order, up to the function's own `def`) is prepended to the
+    body, so rebinding (`n = f / (2 - f); n = float(n)`) keeps Python's order of evaluation. On the way
+    `<list literal name>[<int literal>]` is replaced by the list element and `Decimal('<digits>')` by the same decimal
+    literal (the `decimal` module's 28-digit arithmetic is read as exact arithmetic; recorded in the generated header)."""
+    import copy
+    lists = {}
+    for node in mi.tree.body:
+        if isinstance(node, ast.Assign) and len(node.targets) == 1 and isinstance(node.targets[0], ast.Name) \
+                and isinstance(node.value, ast.List):
+            lists[node.targets[0].id] = node.value.elts
+
+    class Rw(ast.NodeTransformer):
+        def visit_Subscript(self, n):
+            self.generic_visit(n)
+            if isinstance(n.value, ast.Name) and n.value.id in lists and isinstance(n.slice, ast.Constant) \
+                    and isinstance(n.slice.value, int):
+                el = self.visit(copy.deepcopy(lists[n.value.id][n.slice.value]))
+                if isinstance(el, ast.Constant) and not hasattr(el, '_literal_text'):
+                    el._literal_text = ast.get_source_segment(mi.src, lists[n.value.id][n.slice.value])
+                return el
+            return n
+
+        def visit_Call(self, n):
+            self.generic_visit(n)
+            if isinstance(n.func, ast.Name) and n.func.id == 'Decimal' and len(n.args) == 1 \
+                    and isinstance(n.args[0], ast.Constant) and isinstance(n.args[0].value, str):
+                txt = n.args[0].value
+                if repr(float(txt)) != txt and repr(float(txt)).rstrip('0').rstrip('.') != txt:
+                    raise TranslateError(f'{mi.path}:{n.lineno}: Decimal({txt!r}) is not the shortest repr of a double')
+                c = ast.copy_location(ast.Constant(value=float(txt)), n)
+                c._literal_text = txt
+                return c
+            return n
+    for fname in fnames:
+        if fname not in mi.funcs:
+            continue
+        fn = mi.funcs[fname]
+        pre = []
+        for node in mi.tree.body:
+            if node is fn:
+                break
+            if isinstance(node, ast.Assign) and len(node.targets) == 1 and isinstance(node.targets[0], ast.Name) \
+                    and not isinstance(node.value, ast.List):
+                pre.append(Rw().visit(copy.deepcopy(node)))
+        new = copy.deepcopy(fn)
+        new = Rw().visit(new)
+        doc = [new.body[0]] if new.body and isinstance(new.body[0], ast.Expr) and isinstance(new.body[0].value, ast.Constant) else []
+        new.body = doc + pre + new.body[len(doc):]
+        ast.fix_missing_locations(new)
+        mi.funcs[fname] = new
+        mi.tree.body[mi.tree.body.index(fn)] = new
+    # the inlined names are no longer module constants for the translator
+    for node in list(mi.consts):
+        mi.consts.pop(node, None)
+
+
 class Translator:
     def __init__(self, repo, config):
         self.repo = repo
@@ -92,6 +151,8 @@ class Translator:
         self.modules = {}      # modname -> ModuleInfo
         for modname, m in config['modules'].items():
             self.modules[modname] = ModuleInfo(os.path.join(repo, m['path']), modname, m['lean'])
+            if m.get('inline_module_scalars'):
+                inline_module_scalars(self.modules[modname], m.get('functions', []))
         self.param_kinds = config.get('param_kinds', {})
         self.fn_overrides = config.get('functions', {})
         self.ret_kind_cache = {}
@@ -445,7 +506,7 @@ class Translator:
         env.all_locals = set(a.arg for a in args) | assigned_names(fn.body)
         body = env.block(list(fn.body), 1)
         lname = self.METHOD_NAMES.get(mname, mname.strip('_'))
-        return '\n'.join([f'/-- `{cname}.{mname}` (line {fn.lineno}) -/',
+        return '\n'.join([f'/-- `{cname}.{mname}` -/',
                           f'def {cname}.{lname} {" ".join(pdecl)} :=', body, ''])
 
     def emit_const(self, mod, name, value, arith):
@@ -491,7 +552,7 @@ class Translator:
             else:
                 body_stmts.append(st)
         body = env.block(body_stmts, 1)
-        doc = f'/-- `{mod.modname}.{fn.name}` (line {fn.lineno})' + (f' specialised: {spec["params"]}' if spec else '') + ' -/'
+        doc = f'/-- `{mod.modname}.{fn.name}`' + (f' specialised: {spec["params"]}' if spec else '') + ' -/'
         lname = lean_ident(fn.name) + (spec['suffix'] if spec else '')
         if raising and 'PyErr' not in body:
             # every raise was decided statically: the error type is no longer determined by the body
@@ -509,6 +570,11 @@ class Translator:
                 n = node.id
                 if n not in own and n in outer_env.all_locals and n not in outer_env.nested and n not in free:
                     free.append(n)
+                # a call of an earlier nested function needs that function's captured variables as well
+                if n in outer_env.nested and n != fn.name:
+                    for v in outer_env.nested[n][1]:
+                        if v not in own and v not in free:
+                            free.append(v)
         pdecl = []
         for a in fn.args.args:
             env.vars[a.arg] = Kind.NUM
@@ -522,7 +588,7 @@ class Translator:
         outer_env.nested[fn.name] = (lname, free, len(fn.args.args))
         env.nested[fn.name] = (lname, free, len(fn.args.args))
         body = env.block(list(fn.body), 1)
-        return '\n'.join([f'/-- nested `def {fn.name}` of `{outer.name}` (line {fn.lineno}), lambda-lifted; '
+        return '\n'.join([f'/-- nested `def {fn.name}` of `{outer.name}`, lambda-lifted; '
                           f'captured (late-bound) variables: {free} -/',
                           f'def {lname} {" ".join(pdecl)} :=', body, ''])
 
@@ -800,7 +866,7 @@ class Env:
         return f'({n} : {self.T})'
 
     def float_lit(self, node, negate=False):
-        txt = ast.get_source_segment(self.mod.src, node)
+        txt = getattr(node, '_literal_text', None) or ast.get_source_segment(self.mod.src, node)
         try:
             d = Decimal(txt.replace('_', ''))
         except Exception:
@@ -1691,10 +1757,10 @@ class Env:
             if isinstance(st.value, ast.Call):
                 txt = ast.get_source_segment(self.mod.src, st.value).split('\n')[0][:70]
                 if 'warn' in txt:
-                    self.tr.dropped.append(f'{self.fname}:{st.lineno}: {txt}')
+                    self.tr.dropped.append(f'{self.fname}: {txt}')
                     return self.block(rest, indent, tail)
                 if isinstance(st.value.func, ast.Name) and st.value.func.id in ('ValueError', 'TypeError'):
-                    self.tr.dropped.append(f'{self.fname}:{st.lineno}: exception object built, not raised: {txt}')
+                    self.tr.dropped.append(f'{self.fname}: exception object built, not raised: {txt}')
                     return self.block(rest, indent, tail)
             self.err(st, 'unsupported expression statement')
         if isinstance(st, ast.Pass):
@@ -1858,11 +1924,11 @@ class Env:
             self.err(st, 'chained assignment')
         tgt = st.targets[0]
         if isinstance(st.value, ast.Dict) and isinstance(tgt, ast.Name):
-            self.tr.dropped.append(f'{self.fname}:{st.lineno}: dict literal {tgt.id} (never read for the result)')
+            self.tr.dropped.append(f'{self.fname}: dict literal {tgt.id} (never read for the result)')
             self.vars[tgt.id] = 'dict'
             return self.block(rest, indent, tail)
         if isinstance(tgt, ast.Subscript) and isinstance(tgt.value, ast.Name) and self.vars.get(tgt.value.id) == 'dict':
-            self.tr.dropped.append(f'{self.fname}:{st.lineno}: dict item store {tgt.value.id}[...]')
+            self.tr.dropped.append(f'{self.fname}: dict item store {tgt.value.id}[...]')
             return self.block(rest, indent, tail)
         if self.raising and any(self.is_raising_call(n) and n is not st.value for n in ast.walk(st.value)):
             def cont(newval):
@@ -2009,7 +2075,7 @@ class Env:
         sc = self.static_cond(st.test)
         if sc is not None:
             txt = ast.get_source_segment(self.mod.src, st.test).replace('\n', ' ')[:80]
-            self.tr.dropped.append(f'{self.fname}:{st.lineno}: test `{txt}` is decided by the model\'s typing: always {sc}')
+            self.tr.dropped.append(f'{self.fname}: test `{txt}` is decided by the model\'s typing: always {sc}')
             return self.block(list(st.body if sc else st.orelse) + rest, indent, tail)
         sh = self.if_shape(st, indent)
         head, mid = sh['head'], sh['mid']
@@ -2054,7 +2120,7 @@ class Env:
             if (defined_before or in_both) and v in later:
                 vs.append(v)
             elif v in later and not (defined_before or in_both):
-                self.tr.dropped.append(f'{self.fname}:{st.lineno}: `{v}` assigned in only one branch and read later '
+                self.tr.dropped.append(f'{self.fname}: `{v}` assigned in only one branch and read later '
                                        f'(possible UnboundLocalError) — not joined')
         if not vs:
             if self.has_raise(st.body) or self.has_raise(st.orelse):
@@ -2176,7 +2242,7 @@ class Env:
         seeds = [v for v in ab if v not in self.vars and v in later]
         pre = ''
         for v in seeds:
-            self.tr.dropped.append(f'{self.fname}:{st.lineno}: `{v}` is first assigned inside the while loop and '
+            self.tr.dropped.append(f'{self.fname}: `{v}` is first assigned inside the while loop and '
                                    f'read after it; the model seeds it with 0 (Python would raise '
                                    f'UnboundLocalError if the loop ran zero times)')
             self.vars[v] = Kind.NUM
